@@ -34,7 +34,7 @@ ASSUMPTIONS = [
     "successful parses legitimately leave their symbol tables behind (the property only constrains create and failing parses)",
 ]
 BOUNDS = {
-    "quick": dict(length=4, note="12-op core alphabet to length 4; all 24 ops (22 string sources + a file-reader parse + a source with an INCLUDE that must stay unresolved) to length 3; every create-parse-create-parse history over all sources"),
+    "quick": dict(length=4, note="12-op core alphabet to length 4; all 25 ops (22 string sources + two file-reader parses of one path (free-form, then overwritten in fixed form) + a source with an INCLUDE that must stay unresolved) to length 3; every create-parse-create-parse history over all sources"),
     "thorough": dict(length=5, note="all 19 ops to length 4; 9-op alphabet to length 5"),
 }
 
@@ -64,26 +64,45 @@ SOURCES["i7"] = "program p\n real :: cos(3)\n y = cos(2)\n x = = 1\nend program 
 SOURCES["i8"] = " real :: cos(3)\n y = cos(2)\n x = = 1\n end\n"
 SOURCES["vB"] = "program p\n y = cos(1.0)\nend program p\n"
 SOURCES["f1"] = "@file:other.f90"
+SOURCES["f2"] = "@file2:other.f90"  # the same path, overwritten with a fixed-form program
 SOURCES["vA"] = "program p\n include 'c09_decls.inc'\n x = 1\nend program p\n"
 _FILES = {"other.f90": "module other\n integer :: k\nend module other\n", "c09_decls.inc": " integer :: leaked_from_other_directory\n"}
 
 
 def _files_dir():
-    """directory holding the files of the f1 operation: created once per run
-    (its path travels to workers and reference interpreters in the environment)"""
+    """directory holding the files of the file-reader operations.  One directory
+    per history chain: it is created by the first process of a chain (the
+    isolated child that replays a task's prefix, a reference interpreter, a
+    replay) and inherited by the children forked from it, so that the same
+    PATH is parsed again later in a history while concurrent chains never
+    share a file."""
     import atexit, shutil, tempfile
 
-    d = os.environ.get("C09_FILES_DIR")
+    d = _state.get("fdir")
     if not d or not os.path.isdir(d):
         d = tempfile.mkdtemp(prefix="c09_files_")
-        os.environ["C09_FILES_DIR"] = d
+        _state["fdir"] = d
         os.mkdir(os.path.join(d, "lib"))
-        for name, text in _FILES.items():
-            with open(os.path.join(d, "lib", name), "w") as f:
-                f.write(text)
         owner = os.getpid()
         atexit.register(lambda: os.getpid() == owner and shutil.rmtree(d, ignore_errors=True))
     return os.path.join(d, "lib")
+
+
+def _write_files(which):
+    """(re)write the files an operation parses: f1 = free-form module in
+    other.f90; f2 = the SAME path holding a fixed-form program (a 'c' comment
+    line that would be an assignment in free form)"""
+    lib = _files_dir()
+    files = dict(_FILES)
+    if which == "f2":
+        files["other.f90"] = _FILES2
+    for name, text in files.items():
+        with open(os.path.join(lib, name), "w") as f:
+            f.write(text)
+    return lib
+
+
+_FILES2 = "      program q\n      integer c\nc = 5\n      c = 7\n      end program q\n"
 
 
 OPS = ["c3", "c8"] + sorted(SOURCES)
@@ -127,8 +146,9 @@ def apply_op(op):
 
     def reader_for(op):
         src = SOURCES[op]
-        if src.startswith("@file:"):
-            return FortranFileReader(os.path.join(_files_dir(), src[6:]))
+        if src.startswith("@file"):
+            lib = _write_files("f2" if src.startswith("@file2:") else "f1")
+            return FortranFileReader(os.path.join(lib, src.split(":", 1)[1]))
         return FortranStringReader(src)
 
     if op in _STD:
@@ -150,8 +170,14 @@ def apply_op(op):
 
 def fresh_reference(std_op, src):
     """executed in a fresh interpreter: create(std); parse(src)"""
-    o1 = apply_op(std_op)
-    o2 = apply_op(src)
+    import shutil
+
+    _files_dir()
+    try:
+        o1 = apply_op(std_op)
+        o2 = apply_op(src)
+    finally:
+        shutil.rmtree(_state.get("fdir") or "", ignore_errors=True)
     return {"create": o1, "parse": o2}
 
 
@@ -181,7 +207,6 @@ def compute_refs():
 
 
 def plan(tier, seed):
-    _files_dir()
     if not _REFS:
         compute_refs()
     srcs = sorted(SOURCES)
@@ -211,14 +236,20 @@ def plan(tier, seed):
 
 def _subtree(prefix, depth_total, ops):
     """runs in a forked child of the pristine worker"""
+    import shutil
+
     recs = []
-    for i, op in enumerate(prefix):
-        obs = apply_op(op)
-        if i == len(prefix) - 1:
-            recs.append((tuple(prefix), obs))
-    left = depth_total - len(prefix)
-    if left > 0:
-        recs += forktree.expand(tuple(prefix), ops, apply_op, left)
+    _files_dir()  # the chain's own directory, inherited by every child forked below
+    try:
+        for i, op in enumerate(prefix):
+            obs = apply_op(op)
+            if i == len(prefix) - 1:
+                recs.append((tuple(prefix), obs))
+        left = depth_total - len(prefix)
+        if left > 0:
+            recs += forktree.expand(tuple(prefix), ops, apply_op, left)
+    finally:
+        shutil.rmtree(_state.get("fdir") or "", ignore_errors=True)
     return recs
 
 
@@ -309,7 +340,13 @@ def _replay_history(history):
     """apply a history in an isolated child; returns list of observations"""
 
     def go(hist):
-        return [apply_op(op) for op in hist]
+        import shutil
+
+        _files_dir()
+        try:
+            return [apply_op(op) for op in hist]
+        finally:
+            shutil.rmtree(_state.get("fdir") or "", ignore_errors=True)
 
     return forktree.run_isolated(go, history)
 
